@@ -108,8 +108,9 @@ ASSUMPTIONS = ['truth values: TRUE and non-zero numbers true; FALSE, zero (0, 0.
                'exact value of the float (-2.5 has integer part -2)',
                'the five-way partition is claimed for numbers, text, logicals, blanks and error values, each classifier '
                'answering a logical on every value; dates, lists and foreign objects must make all five FALSE; ISEVEN/ISODD '
-               'must be #VALUE! on text (also "1", "1.5"), blanks, dates, lists and foreign objects; logicals given to them '
-               '(treated as 1/0) and errors given to them are not judged',
+               'must be #VALUE! on text (also "1", "1.5"), blanks, dates, lists and foreign objects; on a logical the two must answer '
+               'alike - both a parity, complementary, or both an error - which of the two is not judged; errors given to them are '
+               'not judged',
                'an error in an IF/IFS/SWITCH *value* position is returned like any other value (only tested conditions are '
                'constrained)']
 EXHAUSTIVE = {'quick': False, 'thorough': False}
@@ -549,6 +550,15 @@ def oracle_pred(c, impl_ans):
             for n in ('ISEVEN', 'ISODD'):
                 if out[n] != ('err', 'value'):
                     return bad(n, 'expected #VALUE! for a non-number')
+        elif k == 'logical':
+            # whether a logical counts as 1/0 or as a non-number is not judged - but the two answer alike: both a parity
+            # (complementary) or both an error
+            e, o = out['ISEVEN'], out['ISODD']
+            if (e[0] == 'val') != (o[0] == 'val'):
+                return bad('ISEVEN' if e[0] != 'val' else 'ISODD', 'ISEVEN and ISODD must be complementary: the other one answers %r' % (
+                    (o if e[0] != 'val' else e)[1],))
+            if e[0] == 'val' and bool(o[1]) != (not e[1]):
+                return bad('ISODD', 'ISODD and ISEVEN must be complementary')
     return None
 
 
